@@ -343,6 +343,7 @@ func initCodecs() {
 			return p.Hash().StringBE()
 		}
 		c.show = func(v any) string { return showConsensus(v.(*consensus.Payload), sr) }
+		c.extra = recoveryGetters // what dBFT calls next on an accepted RecoveryMessage (recovery.go)
 		c.weight = 9
 	}
 
